@@ -28,6 +28,11 @@ impl ECIESCiphertext {
             return Err(BSVErrors::ECIESError(format!("Ciphertext must be at least {} bytes long", min_length)));
         }
 
+        // The format begins with the magic bytes, which are part of what the MAC covers
+        if &buffer[0..4] != b"BIE1" {
+            return Err(BSVErrors::ECIESError("Ciphertext does not begin with the magic bytes BIE1".into()));
+        }
+
         let pub_key = match has_pub_key {
             true => {
                 let pub_key_buf = &buffer[PUB_KEY_OFFSET as usize..PUB_KEY_END as usize];
